@@ -274,6 +274,21 @@ def run(quiet=False, repo=None):
             got = type(e).__name__
         if got != exp:
             fail('b64decode(%r): %r != %r' % (t, got, exp))
+        # strict mode (validate=True), same inputs and every short string
+    for t in [bytes(x) for n in range(0, 6)
+              for x in itertools.product(b'Aa=!', repeat=n)]:
+        try:
+            exp = base64.b64decode(t, validate=True)
+        except Exception as e:
+            exp = type(e).__name__
+        try:
+            got = rt._b64decode_model(lb(t), validate=True)
+        except Unsupported:
+            continue
+        except Exception as e:
+            got = type(e).__name__
+        if got != exp:
+            fail('b64decode(%r, validate=True): %r != %r' % (t, got, exp))
     import socket
     for t in ['1.2.3.4', '0.0.0.0', '255.255.255.255', '256.1.1.1', '01.2.3.4',
               '1.2.3', '1.2.3.4.5', '1..2.3', '', '1.2.3.4 ', 'a.b.c.d',
